@@ -9,6 +9,13 @@ def run(ctx, res):
         return
     e3.apply(ctx, res, "C07", floor=structural.E3_FLOORS.get("C07"))
     structural.c07(ctx, res)
+    # "each traversed entry is the very entry a lookup of its key finds": every entry is filed under the hash that a lookup of its
+    # key will compute -- the hash of its own key, built with the hash builder of the cache that owns the table (C04.1 rules)
+    structural.c04(ctx, res, only_hash_agreement=True)
+    # "no operation reads memory that has been moved out of": a table is handed (back) to the cache only after the entries that were
+    # moved out of it have been marked empty (Drop discipline of the owning iterators)
+    structural.check_owning_drops(ctx, res, "C07")
+    structural.no_bucket_relocation(ctx, res, "C07")
     # an entry that is evicted before it is promoted / a duplicate evicted before it is replaced leaves a freed-slot node in the
     # list: the ordering obligations of C03 are necessary conditions of list/table coherence too
     d = e3.run(ctx)
